@@ -102,6 +102,7 @@ func intervalOver(il *IPRequestLimiter, now time.Time) bool {
 // 429 only if it did not, and Inc is the one place the counter is advanced.
 //@ func NewLimiterMiddleware$1$fn
 //@   wiring
+//@   keep single-answer
 //@   callsite Sprintf requires headerIsOwnCount: vararg0.(int) == count && vararg1.(int) == maxNr
 //@   callsite ServeHTTP requires passedOnlyIfOk: ok
 //@   callsite WriteHeader requires tooManyOnlyIfNotOk: arg1 == 429 ==> !ok
@@ -1477,6 +1478,7 @@ func cfgValidScalars(cfg *ResponseConfig) bool {
 // urlGenHandlerFunc: the first entry of the MPD / DRM list is only marked when the list is not empty.
 //@ func (*Server).urlGenHandlerFunc
 //@   wiring
+//@   keep single-answer
 //@   keep index: data.MPDs[0]; data.DRMs[0]
 
 // NewCmafIngester: the internal MPD request is built with the error-returning constructor (the test
@@ -1489,6 +1491,7 @@ func cfgValidScalars(cfg *ResponseConfig) bool {
 // patchHandlerFunc: a patch is only computed from two MPDs that were actually generated.
 //@ func (*Server).patchHandlerFunc
 //@   wiring
+//@   keep single-answer
 //@   exit 2 requires missingPublishTimeRefused: publishTime == ""
 //@   callsite MPDDiff requires bothMPDsGenerated: old.status < 400 && new.status < 400
 
@@ -1551,6 +1554,7 @@ func tfdtTime(t *mp4.TfdtBox) uint64 { return t.BaseMediaDecodeTime() }
 // its state is evaluated at the request second floor(nowMS/1000).
 //@ func (*Server).livesimHandlerFunc
 //@   wiring
+//@   keep single-answer
 //@   keep     index
 //@   callsite StateAt requires second: arg_nowS == nowMS/1000
 //@   callsite writeSegment requires patternConsulted: len(cfg.Traffic) > 0 && patternNr >= 0 ==> patternNr < len(cfg.Traffic) && (specStateAt(cfg.Traffic[patternNr], nowMS/1000) == lossNo || specStateAt(cfg.Traffic[patternNr], nowMS/1000) == lossSlow)
@@ -1627,6 +1631,8 @@ func isImageSpec(p string) bool { return isImage(p) }
 // path that receives an error wraps it with %w (obligation kind errwrap, generated per call).
 //@ func writeSegment
 //@   wiring
+//@   returns (code, err)
+//@   ensures  codeOnlyWithoutError: err != nil ==> code == 0
 //@ func writeLiveSegment
 //@   wiring
 //@   loop 1 invariant true
@@ -1825,6 +1831,7 @@ func urlSafeSpec(b64 string) string { return urlSafeBase64(b64) }
 // pairs the key derived from the requested key id with that same key id.
 //@ func (*Server).laURLHandlerFunc
 //@   wiring
+//@   keep single-answer
 //@   callsite kidToKey requires issuedKid: kidPrefixed(arg_kid)
 //@   exit 2 requires wrongSuffixRefusedAndDone: !strHasSuffixSpec(uPath, laURLSuffix)
 //@   callsite net/http.Error requires clientErrorsAre4xx: (arg1 == "Unmarshal error" || arg1 == "id16FromBase64 error" || arg1 == "key ID not issued by this server") ==> arg2 == 400
